@@ -290,4 +290,4 @@ where
 
 #[cfg(kani)]
 #[path = "/verif/hooks/core/sna.rs"]
-mod verif_hooks;
+pub(crate) mod verif_hooks;
